@@ -103,7 +103,11 @@ class Unit:
 class World:
     """A linked set of units. Lookup by id or by stable name."""
 
+    _counter = [0]
+
     def __init__(self, name, units):
+        World._counter[0] += 1
+        self.uid = World._counter[0]     # identity for analysis caches (never reused, unlike id())
         self.name = name
         self.units = units
         self.fns = {}
